@@ -4,6 +4,7 @@
    the zipper model, the same functions the correspondence check replays real operation sequences on. *)
 From Coq Require Import List NArith Bool Sorted.
 From RB Require Import Base.Result Model.Buffer Model.BufferOps Proofs.BufferP Proofs.BufferMonoP Proofs.BufferMonoInplaceP.
+From RB Require Gen.Sorts.
 Import ListNotations.
 Local Open Scope N_scope.
 
@@ -77,6 +78,13 @@ Theorem C02_sort_keeps_monotone : forall cmp b s e b',
   Mono b -> Lvl01 b -> out_mode b = false -> sort cmp b s e = Ok b' -> Mono b'.
 Proof. exact sort_mono. Qed.
 Print Assumptions C02_sort_keeps_monotone.
+
+(* the shapers' own reordering sorts a syllable's glyphs by position class with the standard library's sort and relies
+   on ties keeping their logical order (clusters before the base are not merged at that point): no call site of an
+   UNSTABLE sorting routine anywhere in the source (call sites regenerated on every run, Gen/Sorts.v) *)
+Theorem C02_sorts_are_stable : Sorts.unstable_sort_sites = 0%N.
+Proof. exact eq_refl. Qed.
+Print Assumptions C02_sorts_are_stable.
 
 (* the hypotheses are met by a sequence that uses both modes; the reversed result is non-increasing *)
 Example C02_both_modes_example : Mono ex_buf /\ guarded2 ex_buf ex_ops /\
